@@ -22,7 +22,7 @@ impl Property for Prop {
         "C20"
     }
     fn rule(&self) -> &'static str {
-        "lengths: key = payload length 0..=4000; for each: the four packet kinds x label kinds (6-byte, 3-byte, broadcast, re-use for start/complete) x seeded fragment id, protocol type >= 0x0600, total length, CRC; each well-formed description (GSE length consistent with its fields; intermediate payload >= 1 byte) is generated, compared byte for byte with the independent serialiser, parsed back (must equal the description), compared with what the encapsulator emits when driven to the same fields (complete packet; first fragment with the same split; intermediate / end from a context at the same position) and fed to the decapsulator (accepted with the same field values; first fragments are completed by a utils-generated end fragment on memories of 1, 3, 5 and 6 slots; one first fragment in eight carries the whole PDU so that the end fragment carries only the CRC; every other train has the receiver's label memory emptied between its fragments; every first-fragment description is also generated and parsed back with total lengths 4095, 4096, 4097, 0x1FFF, 0x8000, 0xFFFF and a random one). maxtotal: descriptions with total length 65530..=65535 for every label kind (18 packets each). the end-fragment comparison with the encapsulator is repeated with output buffers of 4097..131072 bytes; ids: after the first of the two trains is delivered, a generated complete packet with a re-use label must be attributed to the label of the last start packet; for EVERY fragment id X, two utils-generated trains in flight at once on X and a partner id (255 - X, X + 1, X + 128) on memories of 256, 255, 3 and 7 slots; one train's intermediate fragment carries all remaining bytes so that its end fragment carries only the CRC; both must be accepted and delivered with the same field values. Each of these comparisons is an evaluation; fingerprint = (kind, label kind, payload length)."
+        "lengths: key = payload length 0..=4000; for each: the four packet kinds x label kinds (6-byte, 3-byte, broadcast, re-use for start/complete) x seeded fragment id, protocol type >= 0x0600, total length, CRC; each well-formed description (GSE length consistent with its fields; intermediate payload >= 1 byte) is generated, compared byte for byte with the independent serialiser, parsed back (must equal the description), compared with what the encapsulator emits when driven to the same fields (complete packet; first fragment with the same split; intermediate / end from a context at the same position) and fed to the decapsulator (accepted with the same field values; first fragments are completed by a utils-generated end fragment on memories of 1, 3, 5 and 6 slots; one first fragment in eight carries the whole PDU so that the end fragment carries only the CRC; payloads of 0..=8 bytes also with 0, 1, 2, 3 and 6 further PDU bytes, i.e. fragmented PDUs shorter than a label, after a 3-byte or a 6-byte label was remembered; every other train has the receiver's label memory emptied between its fragments; every first-fragment description is also generated and parsed back with total lengths 4095, 4096, 4097, 0x1FFF, 0x8000, 0xFFFF and a random one). maxtotal: descriptions with total length 65530..=65535 for every label kind (18 packets each). the end-fragment comparison with the encapsulator is repeated with output buffers of 4097..131072 bytes; ids: after the first of the two trains is delivered, a generated complete packet with a re-use label must be attributed to the label of the last start packet; for EVERY fragment id X, two utils-generated trains in flight at once on X and a partner id (255 - X, X + 1, X + 128) on memories of 256, 255, 3 and 7 slots; one train's intermediate fragment carries all remaining bytes so that its end fragment carries only the CRC; both must be accepted and delivered with the same field values. Each of these comparisons is an evaluation; fingerprint = (kind, label kind, payload length)."
     }
     fn gens(&self, _cx: &Cx) -> Vec<Gen> {
         vec![Gen { name: "lengths", count: 4001, exhaustive: true }, Gen { name: "maxtotal", count: 24, exhaustive: true }, Gen { name: "ids", count: 256, exhaustive: true }]
@@ -266,77 +266,82 @@ impl Property for Prop {
                 // >= 4 so that the PDU cannot fit the buffer as a complete packet and the encapsulator produces the
                 // same split; one case in eight: 0 (the first fragment carries the whole PDU, the end fragment only
                 // the CRC — a well-formed description the encapsulator never produces: encap comparison skipped)
-                let rest = if (n + label_bytes(&label).len()) % 8 == 5 { 0 } else { 4 + rng.below(50) };
-                let mut pdu = payload.clone();
-                pdu.extend(rng.bytes(rest));
-                let total = (2 + lb.len() + pdu.len()) as u16;
-                let gl = (3 + 2 + lb.len() + n) as u16;
-                let p = GseFirstFragPacket::new(gl, frag_id, total, ptype, label, &payload);
-                let mut buf = vec![0u8; gl as usize + 2];
-                rep.eval();
-                let r = guard(|| p.generate(&mut buf));
-                let want = wire::serialise(&Fields { kind: Kind::First, lt, frag_id, total_len: total, ptype, label: &lb, exts: &[], final_ext: false, payload: &payload, crc: 0 });
-                if r.is_err() || buf != want {
-                    rep.violation("C20", format!("generate:first:{}", lk), || format!("GseFirstFragPacket(gse_len {}, id {}, total {}, type {:#06x}, label {}, payload {}B).generate = {}, TS 102 606 serialisation {}", gl, frag_id, total, ptype, label_str(&label), n, hex_short(&buf, 40), hex_short(&want, 40)), &replay);
-                } else {
-                    match guard(|| GseFirstFragPacket::parse(&buf).map(|q| q == p)) {
-                        Ok(Ok(true)) => {}
-                        o => rep.violation("C20", format!("parse:first:{}", lk), || format!("parse(generate(first fragment, payload {}B, label {})) != original: {:?}", n, label_str(&label), o), &replay),
-                    }
-                    // the total length is a free 16-bit field of the description: the same packet with other totals
-                    for t2 in [4095u16, 4096, 4097, 0x1FFF, 0x8000, 0xFFFF, rng.next() as u16] {
-                        rep.eval();
-                        let p2 = GseFirstFragPacket::new(gl, frag_id, t2, ptype, label, &payload);
-                        let mut b2 = vec![0u8; gl as usize + 2];
-                        let w2 = wire::serialise(&Fields { kind: Kind::First, lt, frag_id, total_len: t2, ptype, label: &lb, exts: &[], final_ext: false, payload: &payload, crc: 0 });
-                        match guard(|| {
-                            p2.generate(&mut b2);
-                            GseFirstFragPacket::parse(&b2).map(|q| q == p2)
-                        }) {
-                            Ok(Ok(true)) if b2 == w2 => {}
-                            o => rep.violation("C20", format!("generate-parse:first:total-length:{}", lk), || format!("first fragment description with total length {}: generate {} (reference {}), parse(generate(x)) == x: {:?}", t2, hex_short(&b2, 24), hex_short(&w2, 24), o), &replay),
-                        }
-                    }
-                    let mut enc = Encapsulator::new(DefaultCrc {});
-                    let mut eb = vec![0u8; gl as usize + 2];
-                    match guard(|| enc.encap(&pdu, frag_id, EncapMetadata::new(ptype, label), &mut eb)) {
-                        _ if rest == 0 => rep.count("c20.first-carrying-whole-pdu"),
-                        Ok(Ok(EncapStatus::FragmentedPkt(m, c))) if m as usize == eb.len() && eb == buf && c.len_pdu_frag() as usize == n => {}
-                        o => rep.violation("C20", format!("encap-differs:first:{}", lk), || format!("encap(pdu {}B, label {}, buffer {}B) = {:?} bytes {}, utils generate {}", pdu.len(), label_str(&label), eb.len(), o.map(|x| format!("{:?}", x)), hex_short(&eb, 40), hex_short(&buf, 40)), &replay),
-                    }
-                    // memories of 1, 3, 5, 6 slots (the fragment id is seeded: every slot mapping is exercised)
-                    let mut dec = plain_dec([1usize, 3, 5, 6][n % 4], pdu.len(), 1, pdu.len(), MandTable::none());
-                    let prime_label = Label::ThreeBytesLabel([7, 7, 7]);
-                    if label == Label::ReUse {
-                        let pp = crate::hostile::mk_complete(1, &[7, 7, 7], 0x0800, b"");
-                        if let Ok(Ok((DecapStatus::CompletedPkt(b, _), _))) = dec_guard(&mut dec, &pp) {
-                            let _ = dec.provision_storage(b);
-                        }
-                    }
-                    let want_label = if label == Label::ReUse { prime_label } else { label };
-                    let d = dec_guard(&mut dec, &buf);
-                    let mut ok = matches!(&d, Ok(Ok((DecapStatus::FragmentedPkt(m), c))) if *c == buf.len() && m.protocol_type() == ptype && m.label() == want_label);
-                    if ok {
-                        // the context the decapsulator stored has the same field values: finish the PDU
-                        // with an end fragment generated by utils and compare the delivery
-                        let crc = fr.gse(total, ptype, &lb, &pdu);
-                        let e = GseEndFragPacket::new((1 + rest + 4) as u16, frag_id, &pdu[n..], crc);
-                        let mut ebuf = vec![0u8; 2 + 1 + rest + 4];
-                        let _ = guard(|| e.generate(&mut ebuf));
-                        if n % 2 == 0 {
-                            // the label memory is emptied between the fragments (frame boundary): the end fragment of a
-                            // train whose first fragment re-used a label needs no label any more
-                            dec.reset_last_label();
-                        }
-                        let d2 = dec_guard(&mut dec, &ebuf);
-                        ok = matches!(&d2, Ok(Ok((DecapStatus::CompletedPkt(b, m), c))) if *c == ebuf.len() && m.pdu_len() == pdu.len() && b[..pdu.len()] == pdu[..] && m.protocol_type() == ptype && m.label() == want_label);
-                        if !ok {
-                            rep.violation("C20", format!("decap-differs:first+end:{}", lk), || format!("decap(generate(first, payload {}B, label {})) then decap(generate(end, {}B)) = {}", n, label_str(&label), rest, dec_res_str(&d2)), &replay);
-                        } else {
-                            rep.nontrivial(mix(2, mix(lt as u64, n as u64)));
-                        }
+                let rest0 = if (n + label_bytes(&label).len()) % 8 == 5 { 0 } else { 4 + rng.below(50) };
+                // tiny first fragments also with PDUs that are shorter than a label (rest 0..=3: as a complete packet would
+                // fit the same buffer the encapsulator does not produce this split, encap comparison skipped)
+                let rests: Vec<usize> = if n <= 8 { vec![rest0, 0, 1, 2, 3, 6] } else { vec![rest0] };
+                for rest in rests {
+                    let mut pdu = payload.clone();
+                    pdu.extend(rng.bytes(rest));
+                    let total = (2 + lb.len() + pdu.len()) as u16;
+                    let gl = (3 + 2 + lb.len() + n) as u16;
+                    let p = GseFirstFragPacket::new(gl, frag_id, total, ptype, label, &payload);
+                    let mut buf = vec![0u8; gl as usize + 2];
+                    rep.eval();
+                    let r = guard(|| p.generate(&mut buf));
+                    let want = wire::serialise(&Fields { kind: Kind::First, lt, frag_id, total_len: total, ptype, label: &lb, exts: &[], final_ext: false, payload: &payload, crc: 0 });
+                    if r.is_err() || buf != want {
+                        rep.violation("C20", format!("generate:first:{}", lk), || format!("GseFirstFragPacket(gse_len {}, id {}, total {}, type {:#06x}, label {}, payload {}B).generate = {}, TS 102 606 serialisation {}", gl, frag_id, total, ptype, label_str(&label), n, hex_short(&buf, 40), hex_short(&want, 40)), &replay);
                     } else {
-                        rep.violation("C20", format!("decap-differs:first:{}", lk), || format!("decap(generate(first fragment, payload {}B, label {})) = {}", n, label_str(&label), dec_res_str(&d)), &replay);
+                        match guard(|| GseFirstFragPacket::parse(&buf).map(|q| q == p)) {
+                            Ok(Ok(true)) => {}
+                            o => rep.violation("C20", format!("parse:first:{}", lk), || format!("parse(generate(first fragment, payload {}B, label {})) != original: {:?}", n, label_str(&label), o), &replay),
+                        }
+                        // the total length is a free 16-bit field of the description: the same packet with other totals
+                        for t2 in [4095u16, 4096, 4097, 0x1FFF, 0x8000, 0xFFFF, rng.next() as u16] {
+                            rep.eval();
+                            let p2 = GseFirstFragPacket::new(gl, frag_id, t2, ptype, label, &payload);
+                            let mut b2 = vec![0u8; gl as usize + 2];
+                            let w2 = wire::serialise(&Fields { kind: Kind::First, lt, frag_id, total_len: t2, ptype, label: &lb, exts: &[], final_ext: false, payload: &payload, crc: 0 });
+                            match guard(|| {
+                                p2.generate(&mut b2);
+                                GseFirstFragPacket::parse(&b2).map(|q| q == p2)
+                            }) {
+                                Ok(Ok(true)) if b2 == w2 => {}
+                                o => rep.violation("C20", format!("generate-parse:first:total-length:{}", lk), || format!("first fragment description with total length {}: generate {} (reference {}), parse(generate(x)) == x: {:?}", t2, hex_short(&b2, 24), hex_short(&w2, 24), o), &replay),
+                            }
+                        }
+                        let mut enc = Encapsulator::new(DefaultCrc {});
+                        let mut eb = vec![0u8; gl as usize + 2];
+                        match guard(|| enc.encap(&pdu, frag_id, EncapMetadata::new(ptype, label), &mut eb)) {
+                            _ if rest < 4 => rep.count("c20.first-carrying-whole-pdu"),
+                            Ok(Ok(EncapStatus::FragmentedPkt(m, c))) if m as usize == eb.len() && eb == buf && c.len_pdu_frag() as usize == n => {}
+                            o => rep.violation("C20", format!("encap-differs:first:{}", lk), || format!("encap(pdu {}B, label {}, buffer {}B) = {:?} bytes {}, utils generate {}", pdu.len(), label_str(&label), eb.len(), o.map(|x| format!("{:?}", x)), hex_short(&eb, 40), hex_short(&buf, 40)), &replay),
+                        }
+                        // memories of 1, 3, 5, 6 slots (the fragment id is seeded: every slot mapping is exercised)
+                        let mut dec = plain_dec([1usize, 3, 5, 6][n % 4], pdu.len(), 1, pdu.len(), MandTable::none());
+                        let prime_label = if n % 2 == 1 { Label::SixBytesLabel([7, 7, 7, 7, 7, 1]) } else { Label::ThreeBytesLabel([7, 7, 7]) };
+                        if label == Label::ReUse {
+                            let pp = if n % 2 == 1 { crate::hostile::mk_complete(0, &[7, 7, 7, 7, 7, 1], 0x0800, b"") } else { crate::hostile::mk_complete(1, &[7, 7, 7], 0x0800, b"") };
+                            if let Ok(Ok((DecapStatus::CompletedPkt(b, _), _))) = dec_guard(&mut dec, &pp) {
+                                let _ = dec.provision_storage(b);
+                            }
+                        }
+                        let want_label = if label == Label::ReUse { prime_label } else { label };
+                        let d = dec_guard(&mut dec, &buf);
+                        let mut ok = matches!(&d, Ok(Ok((DecapStatus::FragmentedPkt(m), c))) if *c == buf.len() && m.protocol_type() == ptype && m.label() == want_label);
+                        if ok {
+                            // the context the decapsulator stored has the same field values: finish the PDU
+                            // with an end fragment generated by utils and compare the delivery
+                            let crc = fr.gse(total, ptype, &lb, &pdu);
+                            let e = GseEndFragPacket::new((1 + rest + 4) as u16, frag_id, &pdu[n..], crc);
+                            let mut ebuf = vec![0u8; 2 + 1 + rest + 4];
+                            let _ = guard(|| e.generate(&mut ebuf));
+                            if n % 2 == 0 {
+                                // the label memory is emptied between the fragments (frame boundary): the end fragment of a
+                                // train whose first fragment re-used a label needs no label any more
+                                dec.reset_last_label();
+                            }
+                            let d2 = dec_guard(&mut dec, &ebuf);
+                            ok = matches!(&d2, Ok(Ok((DecapStatus::CompletedPkt(b, m), c))) if *c == ebuf.len() && m.pdu_len() == pdu.len() && b[..pdu.len()] == pdu[..] && m.protocol_type() == ptype && m.label() == want_label);
+                            if !ok {
+                                rep.violation("C20", format!("decap-differs:first+end:{}", lk), || format!("decap(generate(first, payload {}B, label {})) then decap(generate(end, {}B)) = {}", n, label_str(&label), rest, dec_res_str(&d2)), &replay);
+                            } else {
+                                rep.nontrivial(mix(2, mix(lt as u64, n as u64)));
+                            }
+                        } else {
+                            rep.violation("C20", format!("decap-differs:first:{}", lk), || format!("decap(generate(first fragment, payload {}B, label {})) = {}", n, label_str(&label), dec_res_str(&d)), &replay);
+                        }
                     }
                 }
                 rep.count("c20.first");
